@@ -176,86 +176,112 @@ class Templates:
 
     def _paths(self, nodes, env, depth):
         """-> list[Path]; env maps `set` variables to expression text"""
-        acc = [Path()]
-        env = dict(env)
-        saved_ast = self._env_ast
-        try:
-            return self._paths_inner(nodes, env, depth, acc)
-        finally:
-            self._env_ast = saved_ast
+        return [p for (p, _e, _a) in self._run(nodes, dict(env), dict(self._env_ast), depth)]
 
-    def _paths_inner(self, nodes, env, depth, acc):
+    def _emit(self, e, env, ea, depth=0):
+        """items printed by `{{ e }}`: a `set` variable that holds a string literal or a concatenation (`"params: types." ~ x ~ "Params"`) prints its
+        literal parts as text and its other parts as holes — the same items as when the template spells them out"""
+        v = e["val"]
+        if not e.get("filters") and not e.get("negated") and depth < 6:
+            if v["k"] == "str":
+                return [("text", v["v"])]
+            if v["k"] == "ident" and "." not in v["v"] and v["v"] in ea:
+                val, env0 = ea[v["v"]]
+                return self._emit(val, env0, ea, depth + 1)
+            if v["k"] == "concat":
+                out = []
+                for x in v["values"]:
+                    out.extend(self._emit({"val": x, "filters": [], "negated": False}, env, ea, depth + 1))
+                return out
+        return [("hole", expr_text(e, env), e)]
+
+    def _sub(self, nodes, env, ea, depth):
+        """paths of a nested scope (include, loop body) evaluated under the given bindings; what it sets stays inside"""
+        saved = self._env_ast
+        self._env_ast = ea
+        try:
+            return self._paths(nodes, env, depth)
+        finally:
+            self._env_ast = saved
+
+    def _run(self, nodes, env, env_ast, depth):
+        """-> list of (Path, env, env_ast): the bindings travel with the path, because `{% set %}` inside the branches of an `{% if %}` is visible
+        after it (Tera's `if` opens no scope) and may differ from branch to branch"""
+        states = [(Path(), env, env_ast)]
         for n in nodes:
             k = n["k"]
-            if k == "text":
-                acc = [p.extend(Path((), [("text", n["v"])])) for p in acc]
-            elif k == "comment":
-                continue
-            elif k == "var":
-                t = expr_text(n["e"], env)
-                acc = [p.extend(Path((), [("hole", t, n["e"])])) for p in acc]
-            elif k == "set":
-                self._env_ast = dict(self._env_ast)
-                self._env_ast[n["key"]] = (n["value"], dict(env))
-                env[n["key"]] = expr_text(n["value"], env)
-            elif k == "include":
-                sub = None
-                for nm in n["names"]:
-                    a = self.ast_of(nm)
-                    if a is not None and depth < 6:
-                        sub = self._paths(a, env, depth + 1)
-                        if self._capture is not None and nm == self._capture[0]:
-                            self._capture[1].extend(sub)
-                        break
-                if sub is None:
-                    sub = [Path((), [("text", "⟪ missing include %s ⟫" % ",".join(n["names"]))])]
-                acc = [p.extend(s) for p in acc for s in sub][:MAX_PATHS]
-            elif k == "for":
-                body_env = dict(env)
-                body_env[n["value"]] = None  # loop variable shadows
-                if n.get("key"):
-                    body_env[n["key"]] = None
-                body_env["loop"] = None
-                bodies = self._paths(n["body"], body_env, depth + 1)
-                for bp_ in bodies:
-                    bp_.stopped = False      # the jump ends one pass through the body, not what follows the loop
-                item = ("loop", n["value"], expr_text(n["container"], env), bodies)
-                acc = [p.extend(Path((), [item])) for p in acc]
-            elif k == "if":
-                # conditions are unfolded into their atoms (`a or b`, `not a and not b`, a `set` variable holding such an expression): a path
-                # records the truth value of each atom, so two templates that spell the same decision differently have the same paths
-                branches = []
-                negs = [()]          # alternatives (tuples of atom outcomes) under which every earlier condition failed
-                for c in n["conds"]:
-                    pos = cond_cases(c["cond"], True, env, self._env_ast)
-                    subs = self._paths(c["body"], env, depth + 1)
-                    for ng in negs:
-                        for ps in pos:
-                            if not consistent(ng + ps):
-                                continue
-                            for s in subs:
-                                branches.append(Path(ng + ps, []).extend(s))
-                    neg_c = cond_cases(c["cond"], False, env, self._env_ast)
-                    negs = [ng + nc for ng in negs for nc in neg_c if consistent(ng + nc)][:64]
-                if n.get("else") is not None:
-                    els = self._paths(n["else"], env, depth + 1)
-                    for ng in negs:
-                        for s in els:
-                            branches.append(Path(ng, []).extend(s))
+            new = []
+            for (p, env, ea) in states:
+                if p.stopped or k == "comment":
+                    new.append((p, env, ea))
+                elif k == "text":
+                    new.append((p.extend(Path((), [("text", n["v"])])), env, ea))
+                elif k == "var":
+                    new.append((p.extend(Path((), self._emit(n["e"], env, ea))), env, ea))
+                elif k == "set":
+                    ea2 = dict(ea)
+                    ea2[n["key"]] = (n["value"], dict(env))
+                    env2 = dict(env)
+                    env2[n["key"]] = expr_text(n["value"], env)
+                    new.append((p, env2, ea2))
+                elif k == "include":
+                    sub = None
+                    for nm in n["names"]:
+                        a = self.ast_of(nm)
+                        if a is not None and depth < 6:
+                            sub = self._sub(a, env, ea, depth + 1)
+                            if self._capture is not None and nm == self._capture[0]:
+                                self._capture[1].extend(sub)
+                            break
+                    if sub is None:
+                        sub = [Path((), [("text", "⟪ missing include %s ⟫" % ",".join(n["names"]))])]
+                    new.extend((p.extend(s_), env, ea) for s_ in sub)
+                elif k == "for":
+                    body_env = dict(env)
+                    body_env[n["value"]] = None  # loop variable shadows
+                    if n.get("key"):
+                        body_env[n["key"]] = None
+                    body_env["loop"] = None
+                    bodies = self._sub(n["body"], body_env, ea, depth + 1)
+                    for bp_ in bodies:
+                        bp_.stopped = False      # the jump ends one pass through the body, not what follows the loop
+                    new.append((p.extend(Path((), [("loop", n["value"], expr_text(n["container"], env), bodies)])), env, ea))
+                elif k == "if":
+                    # conditions are unfolded into their atoms (`a or b`, `not a and not b`, a `set` variable holding such an expression): a path
+                    # records the truth value of each atom, so two templates that spell the same decision differently have the same paths
+                    negs = [()]          # alternatives (tuples of atom outcomes) under which every earlier condition failed
+                    for c in n["conds"]:
+                        pos = cond_cases(c["cond"], True, env, ea)
+                        subs = self._run(c["body"], env, ea, depth + 1)
+                        for ng in negs:
+                            for ps in pos:
+                                if not consistent(ng + ps):
+                                    continue
+                                for (s_, env_s, ea_s) in subs:
+                                    new.append((p.extend(Path(ng + ps, []).extend(s_)), env_s, ea_s))
+                        neg_c = cond_cases(c["cond"], False, env, ea)
+                        negs = [ng + nc for ng in negs for nc in neg_c if consistent(ng + nc)][:64]
+                    if n.get("else") is not None:
+                        els = self._run(n["else"], env, ea, depth + 1)
+                        for ng in negs:
+                            for (s_, env_s, ea_s) in els:
+                                new.append((p.extend(Path(ng, []).extend(s_)), env_s, ea_s))
+                    else:
+                        for ng in negs:
+                            new.append((p.extend(Path(ng, [])), env, ea))
+                elif k in ("block", "filtersection"):
+                    for (s_, env_s, ea_s) in self._run(n["body"], env, ea, depth + 1):
+                        new.append((p.extend(s_), env_s, ea_s))
+                elif k in ("break", "continue"):
+                    stop_ = Path()
+                    stop_.stopped = True
+                    new.append((p.extend(stop_), env, ea))
+                elif k in ("extends", "import", "macrodef", "super"):
+                    new.append((p.extend(Path((), [("text", "⟪%s⟫" % k)])), env, ea))
                 else:
-                    for ng in negs:
-                        branches.append(Path(ng, []))
-                acc = [p.extend(b) for p in acc for b in branches][:MAX_PATHS]
-            elif k in ("block", "filtersection"):
-                sub = self._paths(n["body"], env, depth + 1)
-                acc = [p.extend(s) for p in acc for s in sub][:MAX_PATHS]
-            elif k in ("break", "continue"):
-                stop_ = Path()
-                stop_.stopped = True
-                acc = [p.extend(stop_) for p in acc]
-            elif k in ("extends", "import", "macrodef", "super"):
-                acc = [p.extend(Path((), [("text", "⟪%s⟫" % k)])) for p in acc]
-        return acc
+                    new.append((p, env, ea))
+            states = new[:MAX_PATHS]
+        return states
 
     def rendered_names(self):
         """template names passed to render(..) anywhere in the sources (string literals)"""
